@@ -96,7 +96,7 @@ def _sys(ctx):
     import mirdump
 
     def compute():
-        return run_sys.run(ctx.functions, ctx.enums, mirdump.REPO, ctx.tier)
+        return run_sys.run(ctx.functions, ctx.enums, mirdump.REPO, ctx.tier, seed=ctx.seed)
     (res, stats), was_cached = ctx.cached('sys', compute)
     stats = dict(stats)
     stats['shared_exploration_reused'] = was_cached
@@ -113,12 +113,15 @@ def sys_property(pid, note=None, also_loop=False):
     def check(ctx):
         res, stats = _sys(ctx)
         vio = [dict(sig=_sys_sig(pid, x), msg=x['msg'], program=x['prog'], capacity=x.get('cap'),
+                    native_confirmed=x.get('native_confirmed'), native_note=x.get('native_note'),
                     trace=[list(map(str, e)) for e in x['trace']], choices=x['choices']) for x in res.get(pid, [])]
         cov = dict(
             evaluations=stats['paths'], distinct_nontrivial=stats['distinct_traces'],
             rule="one evaluation = one explored schedule (sequence of task polls) of one closed program executed on "
                  "hannibal's MIR; distinct_nontrivial = distinct event traces",
-            states=stats['steps'], transitions=stats['steps'] + stats['solver_calls'], traces_validated_against_impl=0,
+            states=stats['steps'], transitions=stats['steps'] + stats['solver_calls'],
+            traces_validated_against_impl=stats.get('traces_validated_against_impl', 0),
+            native_mismatches=stats.get('native_mismatches', []), native_confirmations=stats.get('native_confirmations', {}),
             samples=stats['samples'], solver_queries=stats['solver_calls'], solver_s=round(stats['solver_s'], 2),
             schedules_cut_by_bound=stats['bound'], paths_truncated_by_loop_bound=stats['truncated'],
             programs=stats['programs'], functions_encoded=stats['functions'], modelled_calls=stats['modelled'],
@@ -138,6 +141,12 @@ def sys_property(pid, note=None, also_loop=False):
                 out['inconclusive'] = f"{lstats['truncated']} loop-level paths hit the unrolling bound"
         if stats['truncated']:
             out['inconclusive'] = f"{stats['truncated']} schedules hit the MIR loop unrolling bound"
+        if stats.get('native_mismatches'):
+            out['inconclusive'] = f"model infidelity: {len(stats['native_mismatches'])} sampled schedules behave differently on the real crates: {stats['native_mismatches'][0]}"
+        unconfirmed = [x for x in vio if x.get('native_confirmed') is False]
+        if unconfirmed:
+            out['inconclusive'] = f"{len(unconfirmed)} symbolic counterexamples did not reproduce natively: {unconfirmed[0]['msg']} ({unconfirmed[0].get('native_note')})"
+            out['violations'] = [x for x in vio if x.get('native_confirmed') is not False]
         return out
     return check
 
